@@ -225,6 +225,16 @@ func GenSet(rt *rapid.T, o *GenOpts, hist map[string][]model.Path) SetSpec {
 				k = "replace"
 			}
 			spec.Ops = append(spec.Ops, model.Op{Kind: k, Target: t, Path: p, Val: &v})
+			if kind == 6 && !ld.IsKey && rapid.IntRange(0, 2).Draw(rt, "replaceandupdate") == 0 {
+				// the same leaf in the replace list and in the update list of one request: the update is applied last
+				v2 := GenValue(rt, ld, p, o)
+				op2 := model.Op{Kind: "update", Target: t, Path: p.Clone(), Val: &v2}
+				if rapid.IntRange(0, 1).Draw(rt, "updatefirst") == 0 {
+					spec.Ops = append(spec.Ops, op2)
+				} else {
+					spec.Ops = append(spec.Ops[:len(spec.Ops)-1], op2, spec.Ops[len(spec.Ops)-1])
+				}
+			}
 		}
 	}
 	spec.Ops = sanitizeOps(spec.Ops, o)
@@ -354,7 +364,8 @@ func sanitizeOps(ops []model.Op, o *GenOpts) []model.Op {
 			}
 			// two writes of one path in one request: keep the last only (order of
 			// duplicates inside update[] is not something the statement speaks about)
-			if a.Kind != "delete" && b.Kind != "delete" && a.Path.String() == b.Path.String() && j > i {
+			// (a replace and an update of one path are both kept: gNMI applies replaces before updates)
+			if a.Kind != "delete" && a.Kind == b.Kind && a.Path.String() == b.Path.String() && j > i {
 				drop = true
 			}
 			if o.AvoidSamePathDeleteWrite && a.Kind == "delete" && b.Kind != "delete" && a.Path.String() == b.Path.String() {
